@@ -19,8 +19,10 @@ def draw_rule(r, regexes, ops, p_good=0.65, p_star=None):
   op = r.choice(ops)
   if algo == A.BOGUS and r.random() < 0.8:
     op = '*'
+  if algo == A.FLOATCAST and r.random() < 0.7:
+    op = r.choice(['FULLY_CONNECTED', 'CONV_2D', 'EMBEDDING_LOOKUP', '*'])
   if r.random() < p_good:
-    cfg = r.choice(A.GOOD_FOR[algo])
+    cfg = r.choice(A.likely_good_configs(op, algo))
   else:
     cfg = r.choice(A.CONFIG_NAMES)
   return [r.choice(regexes), op, cfg, algo]
@@ -28,18 +30,18 @@ def draw_rule(r, regexes, ops, p_good=0.65, p_star=None):
 
 def generate(rseed, tier='quick'):
   r = core.rng_for(rseed, 'trace')
-  n_regex = r.randint(2, 6)
+  n_regex = r.choice([2, 2, 3, 3, 4, 5, 6])
   regexes = r.sample(A.GRID_REGEXES, n_regex)
   if r.random() < 0.6 and '.*' not in regexes:
     regexes[0] = '.*'
-  n_sel = r.randint(3, 8)
+  n_sel = r.choice([2, 3, 3, 4, 5, 6, 8])
   ops = r.sample(A.ALL_OPS[1:], n_sel)
   if r.random() < 0.8:
     ops.append('*')
   if r.random() < 0.7 and 'FULLY_CONNECTED' not in ops:
     ops.append('FULLY_CONNECTED')
   knobs = {
-      'p_good': r.choice([0.5, 0.65, 0.8, 0.95]),
+      'p_good': r.choice([0.6, 0.75, 0.85, 0.95]),
       'two_managers': r.random() < 0.75,
       'facade': r.choice(['quantizer', 'quantizer', 'manager']),
   }
@@ -174,7 +176,8 @@ def same(a, b):
     return False
   if a[0] == 'raise':
     return True
-  return core.digest(core.jcanon(a[2])) == core.digest(core.jcanon(b[2]))
+  # frozen dataclasses compare by value; str-enums equal their string values
+  return a[2] == b[2]
 
 
 def probe_all(rec, step, mgrs, probe_ops, probe_scopes, purity=True):
